@@ -26,6 +26,9 @@ pub struct GenCfg {
     pub max_resources: usize,
     /// Also close cycles that have nothing to cut at (expected to be rejected).
     pub invalid_cycles: bool,
+    /// Stress lexical scoping: functions of 2-3 same-kinded parameters named from a 3-name pool,
+    /// whose bodies pass their parameters on to other functions in any order.
+    pub scope_stress: bool,
 }
 
 impl GenCfg {
@@ -44,6 +47,7 @@ impl GenCfg {
             annotations: true,
             max_resources: 3,
             invalid_cycles: false,
+            scope_stress: false,
         }
     }
     pub fn full() -> Self {
@@ -103,6 +107,13 @@ pub struct Gen<'t> {
     edges: BTreeSet<(Bid, Bid)>,
     at_names: BTreeSet<String>,
     used_paths: BTreeSet<String>,
+    /// A name the next literal property must take (distinct names in lists, unique names for
+    /// property declarations).
+    prop_name_hint: Option<String>,
+    /// Methods already taken by the transfers of the relation being generated.
+    used_methods: Vec<Method>,
+    /// Statuses still free for the contents of the ranges being generated.
+    status_pool: Option<Vec<Option<E>>>,
     pub labels: BTreeSet<&'static str>,
 }
 
@@ -133,6 +144,9 @@ impl<'t> Gen<'t> {
             edges: BTreeSet::new(),
             at_names: BTreeSet::new(),
             used_paths: BTreeSet::new(),
+            prop_name_hint: None,
+            used_methods: Vec::new(),
+            status_pool: None,
             labels: BTreeSet::new(),
         }
     }
@@ -206,6 +220,9 @@ impl<'t> Gen<'t> {
     }
 
     fn fresh_local_name(&mut self) -> String {
+        if self.cfg.scope_stress {
+            return self.t.pick(&["a", "b", "c"]).to_owned();
+        }
         let pool: &[&str] = if self.cfg.shadowing { SMALL_POOL } else { NAME_POOL };
         // Local binders may shadow anything, but not a sibling parameter (checked by the caller).
         self.t.pick(pool).to_owned()
@@ -327,7 +344,10 @@ impl<'t> Gen<'t> {
             self.labels.insert("declaration-cycle");
             return true;
         }
-        if self.cfg.invalid_cycles && self.t.chance(1, 4) {
+        // A cycle with nothing to cut at: only through declarations that can never be cut at
+        // (functions, contents, properties, transfers, URIs), so that the verdict does not depend
+        // on what inference makes of a bare alias cycle.
+        if self.cfg.invalid_cycles && !referential && self.t.chance(1, 3) {
             self.labels.insert("invalid-cycle");
             return true;
         }
@@ -477,9 +497,14 @@ impl<'t> Gen<'t> {
     }
 
     fn new_function(&mut self, ret: K, acyclic: bool) -> (VarRef, Vec<K>) {
-        let n = self.t.range(1, 3);
+        let n = if self.cfg.scope_stress { self.t.range(2, 3) } else { self.t.range(1, 3) };
         let mut params = Vec::new();
         for _ in 0..n {
+            if self.cfg.scope_stress {
+                // Few kinds, so that a parameter fits where another function wants an argument.
+                params.push(if self.t.chance(3, 4) { K::S(Tag::Prim, Shape::Op) } else { K::S(Tag::Obj, Shape::Op) });
+                continue;
+            }
             let w = match self.t.choose(8) {
                 0 | 1 => Want::Schema(None),
                 2 => Want::Plain(Tag::Obj),
@@ -499,6 +524,12 @@ impl<'t> Gen<'t> {
     // -------------------------------------------------------------------------------------
     // Expressions
 
+    /// Contradictory sources (duplicate names, the same method or status twice) are avoided by
+    /// construction in the strict fragment, and mostly avoided otherwise.
+    fn avoid_duplicates(&mut self) -> bool {
+        self.cfg.strict || self.t.chance(9, 10)
+    }
+
     fn spend(&mut self) -> bool {
         self.budget -= 1;
         self.budget > 0
@@ -514,7 +545,9 @@ impl<'t> Gen<'t> {
         if self.t.chance(1, 16) {
             e = E::Paren(Box::new(e));
         }
-        if self.cfg.annotations && self.t.chance(1, 6) {
+        // Use-site annotations on something shared are the X4 class: rare in the strict fragment.
+        let shy = self.cfg.strict && head_is_reference(&e) && !self.t.chance(1, 6);
+        if self.cfg.annotations && !shy && self.t.chance(1, 6) {
             let k = self.ann_for(w);
             let (lines, inline) = match self.t.choose(4) {
                 0 => (vec![k], None),
@@ -530,6 +563,10 @@ impl<'t> Gen<'t> {
             };
             self.labels.insert("annotation");
             e = E::Ann(lines, inline, Box::new(e));
+            if self.cfg.strict && multi_method(&e) {
+                // One operationId cannot name several operations.
+                strip_key(&mut e, "operationId");
+            }
         }
         e
     }
@@ -690,7 +727,17 @@ impl<'t> Gen<'t> {
         }
         let can_create = self.n_decls() < self.cfg.max_decls;
         if !cands.is_empty() && (!can_create || self.t.chance(7, 10)) {
-            let i = self.t.choose(cands.len());
+            let param_cands: Vec<usize> = cands
+                .iter()
+                .enumerate()
+                .filter(|(_, (b, _, _))| matches!(self.prog.binders[*b].kind, BinderKind::Param { .. }))
+                .map(|(i, _)| i)
+                .collect();
+            let i = if self.cfg.scope_stress && !param_cands.is_empty() && self.t.chance(3, 4) {
+                self.t.pick(&param_cands)
+            } else {
+                self.t.choose(cands.len())
+            };
             let (b, via, params) = cands.swap_remove(i);
             match self.prog.binders[b].kind {
                 BinderKind::Param { .. } => {
@@ -743,7 +790,13 @@ impl<'t> Gen<'t> {
     fn gen_inner(&mut self, w: &Want, depth: usize) -> E {
         let alive = self.spend();
         let depth = if alive { depth } else { 0 };
-        let var_odds = if depth == 0 { (1, 2) } else { (3, 10) };
+        let var_odds = if depth == 0 {
+            (1, 2)
+        } else if self.cfg.scope_stress && !self.scope.is_empty() {
+            (7, 10)
+        } else {
+            (3, 10)
+        };
         let at_head = self.head;
         let at_rec_head = self.rec_head;
         if self.t.chance(var_odds.0, var_odds.1) {
@@ -779,12 +832,50 @@ impl<'t> Gen<'t> {
                 _ if depth > 0 => {
                     self.labels.insert("ranges");
                     let n = self.t.range(2, 4);
-                    let ops = (0..n)
-                        .map(|_| {
+                    let outermost = self.status_pool.is_none();
+                    if outermost && self.avoid_duplicates() {
+                        // One status per content of the (possibly nested) ranges; `None` is the default response.
+                        self.status_pool = Some(vec![
+                            None,
+                            Some(E::Num(200)),
+                            Some(E::Num(201)),
+                            Some(E::Num(404)),
+                            Some(E::Status(4)),
+                            Some(E::Status(5)),
+                            Some(E::Num(400)),
+                            Some(E::Num(301)),
+                            Some(E::Num(500)),
+                            Some(E::Status(2)),
+                            Some(E::Num(418)),
+                            Some(E::Num(100)),
+                        ]);
+                    }
+                    let careful = self.status_pool.is_some();
+                    let mut ops: Vec<E> = Vec::new();
+                    let mut referenced = false;
+                    for _ in 0..n {
+                        let e = if careful && (referenced || !outermost || self.t.chance(2, 3)) {
+                            // A literal content, with a status of its own.
+                            let c = self.gen_content(depth - 1);
+                            self.decorate(c, &Want::Content)
+                        } else {
                             let w = if self.t.chance(3, 4) { Want::Content } else { Want::RangesLike };
-                            self.gen(&w, depth - 1)
-                        })
-                        .collect();
+                            let e = self.gen(&w, depth - 1);
+                            // The status of something declared elsewhere is not known here: at most one such operand,
+                            // and a bare schema takes the default slot.
+                            if careful && (head_is_reference(&e) || !matches!(e, E::Content(_, _) | E::Op(OpKind::Range, _))) {
+                                referenced = true;
+                                if let Some(pool) = self.status_pool.as_mut() {
+                                    pool.retain(|s| s.is_some());
+                                }
+                            }
+                            e
+                        };
+                        ops.push(e);
+                    }
+                    if outermost {
+                        self.status_pool = None;
+                    }
                     E::Op(OpKind::Range, ops)
                 }
                 _ => self.gen_content(depth),
@@ -930,14 +1021,36 @@ impl<'t> Gen<'t> {
     /// Property lists with pairwise distinct names (in strict mode).
     fn gen_props(&mut self, n: usize, depth: usize) -> Vec<E> {
         let mut out = Vec::new();
+        let mut pool: Vec<&str> = PROP_NAMES.to_vec();
+        let mut seen_binders: Vec<Bid> = Vec::new();
+        let distinct = self.avoid_duplicates();
         for _ in 0..n {
-            out.push(self.gen(&Want::Prop(None), depth.saturating_sub(1)));
+            if distinct && !pool.is_empty() {
+                let i = self.t.choose(pool.len());
+                self.prop_name_hint = Some(pool.remove(i).to_owned());
+            }
+            let hint = self.prop_name_hint.clone();
+            let mut e = self.gen(&Want::Prop(None), depth.saturating_sub(1));
+            if distinct {
+                // The same declaration (or function) twice in one list means the same name twice.
+                if let Some(b) = head_binder(&e) {
+                    if seen_binders.contains(&b) {
+                        self.prop_name_hint = hint;
+                        e = self.gen_prop(None, depth.saturating_sub(1));
+                    } else {
+                        seen_binders.push(b);
+                    }
+                }
+            }
+            out.push(e);
+            self.prop_name_hint = None;
         }
         out
     }
 
     fn gen_prop(&mut self, tag: Option<Tag>, depth: usize) -> E {
-        let name = self.t.pick(PROP_NAMES).to_owned();
+        let picked = self.t.pick(PROP_NAMES).to_owned();
+        let name = self.prop_name_hint.take().unwrap_or(picked);
         let mark = match self.t.choose(4) {
             0 => Some(true),
             1 => Some(false),
@@ -973,7 +1086,11 @@ impl<'t> Gen<'t> {
             match self.t.choose(6) {
                 0 if depth > 0 => {
                     self.labels.insert("uri-variable");
-                    segs.push(Seg::Var(self.gen(&Want::Prop(Some(Tag::Prim)), depth - 1)))
+                    // Path variables are pairwise distinct inside a path.
+                    let k = segs.iter().filter(|s| matches!(s, Seg::Var(_))).count();
+                    self.prop_name_hint = Some(["id", "name", "key"][k % 3].to_owned() + if k >= 3 { "2" } else { "" });
+                    segs.push(Seg::Var(self.gen(&Want::Prop(Some(Tag::Prim)), depth - 1)));
+                    self.prop_name_hint = None;
                 }
                 1 => segs.push(Seg::Root),
                 _ => segs.push(Seg::Lit(self.t.pick(SEGMENTS).to_owned())),
@@ -991,9 +1108,23 @@ impl<'t> Gen<'t> {
 
     fn gen_content(&mut self, depth: usize) -> E {
         let mut metas = Vec::new();
+        // Inside ranges every literal content takes a status nobody else has.
+        let forced: Option<Option<E>> = match self.status_pool.as_mut() {
+            Some(pool) if !pool.is_empty() => {
+                let i = self.t.choose(pool.len());
+                Some(pool.remove(i))
+            }
+            _ => None,
+        };
+        let in_pool = forced.is_some();
+        if let Some(Some(st)) = &forced {
+            metas.push((MetaKind::Status, st.clone()));
+        }
+        // The nested positions (headers, bodies) belong to other responses.
+        let saved_pool = self.status_pool.take();
         if depth > 0 {
-            let mut kinds = vec![MetaKind::Media, MetaKind::Status, MetaKind::Headers];
-            let n = self.t.range(0, 3);
+            let mut kinds = if in_pool { vec![MetaKind::Media, MetaKind::Headers] } else { vec![MetaKind::Media, MetaKind::Status, MetaKind::Headers] };
+            let n = self.t.range(0, 3).min(kinds.len());
             for _ in 0..n {
                 let i = self.t.choose(kinds.len());
                 let k = kinds.remove(i);
@@ -1008,23 +1139,42 @@ impl<'t> Gen<'t> {
                 metas.push((k, v));
             }
         }
-        let body = if self.t.chance(4, 5) {
+        // Without a body the status defaults to 204: inside ranges the "default" slot needs a body.
+        let need_body = matches!(forced, Some(None));
+        let body = if need_body || self.t.chance(4, 5) {
             Some(Box::new(if depth == 0 { E::Object(vec![]) } else { self.gen(&Want::Schema(None), depth - 1) }))
         } else {
             None
         };
+        self.status_pool = saved_pool;
+        // A tape-chosen order of the metas.
+        if metas.len() > 1 && self.t.chance(1, 2) {
+            metas.rotate_left(1);
+        }
         E::Content(metas, body)
     }
 
     fn gen_transfer(&mut self, depth: usize) -> E {
         let n = self.t.range(1, 2);
         let mut methods = Vec::new();
+        let distinct = self.avoid_duplicates();
         for _ in 0..n {
-            let m = self.t.pick(&ALL_METHODS);
+            let free: Vec<Method> = ALL_METHODS.iter().copied().filter(|m| !distinct || !self.used_methods.contains(m)).collect();
+            if free.is_empty() {
+                break;
+            }
+            let m = self.t.pick(&free);
             if !methods.contains(&m) {
                 methods.push(m);
+                self.used_methods.push(m);
             }
         }
+        if methods.is_empty() {
+            methods.push(self.t.pick(&ALL_METHODS));
+        }
+        // The nested positions belong to other relations.
+        let saved_methods = std::mem::take(&mut self.used_methods);
+        let saved_pool = self.status_pool.take();
         let params = if depth > 0 && self.t.chance(1, 4) {
             self.labels.insert("xfer-params");
             let n = self.t.range(0, 2);
@@ -1039,13 +1189,32 @@ impl<'t> Gen<'t> {
             None
         };
         let range = Box::new(self.gen(&Want::RangesLike, depth.saturating_sub(1)));
+        self.used_methods = saved_methods;
+        self.status_pool = saved_pool;
         E::Transfer { methods, params, domain, range }
     }
 
     fn gen_relation(&mut self, depth: usize) -> E {
         let uri = self.gen(&Want::Plain(Tag::Uri), depth.saturating_sub(1));
         let n = self.t.range(1, 2);
-        let xfers = (0..n).map(|_| self.gen(&Want::Transfer, depth.saturating_sub(1))).collect();
+        let saved = std::mem::take(&mut self.used_methods);
+        let distinct = self.avoid_duplicates();
+        let mut xfers: Vec<E> = Vec::new();
+        for i in 0..n {
+            if i == 0 || !distinct {
+                let x = self.gen(&Want::Transfer, depth.saturating_sub(1));
+                let referenced = head_is_reference(&x);
+                xfers.push(x);
+                // The methods of a transfer declared elsewhere are not known here: it stays alone.
+                if referenced && distinct {
+                    break;
+                }
+            } else {
+                let x = self.gen_transfer(depth.saturating_sub(1));
+                xfers.push(self.decorate(x, &Want::Transfer));
+            }
+        }
+        self.used_methods = saved;
         E::Relation(Box::new(uri), xfers)
     }
 
@@ -1062,6 +1231,10 @@ impl<'t> Gen<'t> {
         self.cur = Some(p);
         self.head = true;
         self.rec_head = false;
+        let ret_is_prop = matches!(&k, K::P(_)) || matches!(&k, K::F(_, r) if matches!(**r, K::P(_)));
+        if ret_is_prop && self.avoid_duplicates() {
+            self.prop_name_hint = Some(format!("p{id}"));
+        }
         let (params, body) = match &k {
             K::F(pks, ret) => {
                 let mut params = Vec::new();
@@ -1098,19 +1271,28 @@ impl<'t> Gen<'t> {
                 (vec![], self.gen(&w, depth))
             }
         };
-        let anns = if self.cfg.annotations && self.t.chance(1, 4) {
+        let alias = head_is_reference(&body);
+        let anns = if self.cfg.annotations && !(self.cfg.strict && alias) && self.t.chance(1, 4) {
             let w = Self::want_of(match &k {
                 K::F(_, r) => r,
                 k => k,
             });
             let n = self.t.range(1, 2);
             self.labels.insert("decl-annotation");
-            (0..n).map(|_| self.ann_for(&w)).collect()
+            let mut v: Vec<Ann> = (0..n).map(|_| self.ann_for(&w)).collect();
+            if self.cfg.strict && (multi_method(&body) || matches!(k, K::Transfer | K::F(_, _))) {
+                for a in v.iter_mut() {
+                    a.remove("operationId");
+                }
+                v.retain(|a| !a.is_empty());
+            }
+            v
         } else {
             vec![]
         };
         self.scope.clear();
         self.cur = None;
+        self.prop_name_hint = None;
         self.clock += 1;
         self.completed.insert(id, self.clock);
         let m = self.cur_module;
@@ -1186,6 +1368,45 @@ impl<'t> Gen<'t> {
             self.labels.insert("multi-module");
         }
         (self.prog, self.labels)
+    }
+}
+
+/// The binder at the head of an expression (through parentheses, annotations and postfix marks).
+pub fn head_binder(e: &E) -> Option<Bid> {
+    match e {
+        E::Var(v) | E::App(v, _) => v.binder,
+        E::Paren(i) | E::Ann(_, _, i) | E::Unary(i, _) => head_binder(i),
+        _ => None,
+    }
+}
+
+fn head_is_reference(e: &E) -> bool {
+    matches!(e, E::Var(_) | E::App(_, _)) || matches!(e, E::Paren(i) | E::Ann(_, _, i) | E::Unary(i, _) if head_is_reference(i))
+}
+
+fn strip_key(e: &mut E, key: &str) {
+    if let E::Ann(lines, inline, inner) = e {
+        for l in lines.iter_mut() {
+            l.remove(key);
+        }
+        lines.retain(|l| !l.is_empty());
+        if let Some(i) = inline {
+            i.remove(key);
+            if i.is_empty() {
+                *inline = None;
+            }
+        }
+        strip_key(inner, key);
+    } else if let E::Paren(inner) = e {
+        strip_key(inner, key);
+    }
+}
+
+fn multi_method(e: &E) -> bool {
+    match e {
+        E::Transfer { methods, .. } => methods.len() > 1,
+        E::Paren(i) | E::Ann(_, _, i) => multi_method(i),
+        _ => false,
     }
 }
 
